@@ -146,9 +146,30 @@ def _norm(p):
     return os.path.normpath(p)
 
 
+class Hung(Exception):
+    pass
+
+
+def _guarded(d, call):
+    """Run one call under a watchdog: a call that waits for an identifier a previous call left
+    locked would otherwise hang the whole walk."""
+    import threading
+    box = {}
+
+    def run():
+        box["r"] = _contained_call(d, call) if getattr(d, "contain", False) else d.call(call)
+    th = threading.Thread(target=run, daemon=True)
+    th.start()
+    th.join(20)
+    if th.is_alive():
+        d.dead = True
+        return {"cls": "blocked", "cid": "-", "data": "-", "truth": True}
+    return box["r"]
+
+
 def _step(d, call, want_fs):
     before = absfn.snapshot(d.root) if want_fs else None
-    r = _contained_call(d, call) if getattr(d, "contain", False) else d.call(call)
+    r = _guarded(d, call)
     if want_fs:
         r["fs"] = absfn.fs_diff(before, absfn.snapshot(d.root))
     if d.notes:
@@ -170,6 +191,8 @@ def walk_state(inst, inputs, base, path, calls, fhs, sidx, fan_filter=None):
     node = None
     cur = d.abstract()
     for call in path:
+        if getattr(d, "dead", False):
+            break
         n = _step(d, call, call["op"] in READONLY_OPS)
         cur = n["post"]
         if node is None:
@@ -184,6 +207,8 @@ def walk_state(inst, inputs, base, path, calls, fhs, sidx, fan_filter=None):
             continue
         if call["op"] == "dii" and cur["obj"].get(call["c"]) != "ok":
             continue
+        if getattr(d, "dead", False):
+            break
         n = _step(d, call, call["op"] in READONLY_OPS)
         n["fan"] = k
         fan.append(n)
